@@ -206,8 +206,22 @@ def compressor(prog, res):
     ef = c.call_roots("ZSTD_seekable_endFrame")
     full = cond_edges(c, lambda x: x.get("k") == "bin" and x["op"] == "==" and
                       {"maxFrameSize", "frameDSize"} <= {y["f"] for y in walk(x) if y.get("k") == "mem"}, "true")
-    res.check(len(ef) == 1 and len(full) == 1 and c.must_pass(via_edges=full, targets=ef), R, "compressStream:frame-ends-at-max", c.loc,
-              "a frame is ended exactly when frameDSize reaches maxFrameSize", "frame end no longer tied to maxFrameSize == frameDSize")
+    pend = guards.truthy_edges(c, lambda x: x.get("k") == "mem" and x.get("f") == "endingFrame", truth=True)
+    res.check(len(ef) >= 1 and len(full) == 1 and c.must_pass(via_edges=full + pend, targets=ef), R, "compressStream:frame-ends-at-max", c.loc,
+              "a frame is ended when frameDSize reaches maxFrameSize (or to complete an end that is pending)", "frame end no longer tied to maxFrameSize == frameDSize")
+    # an end that could not be flushed entirely has not logged its frame: no input may reach zstd before it is completed
+    e = prog.fn("ZSTD_seekable_endFrame")
+    es = e.call_roots("ZSTD_endStream")
+    mark = e.find_roots(lambda x: x.get("k") == "asg" and x.get("op") == "=" and strip_casts(x["lhs"]).get("k") == "mem" and strip_casts(x["lhs"]).get("f") == "endingFrame")
+    res.check(len(es) == 1 and bool(mark) and e.must_pass(via_roots=mark, starts=[(b, i + 1) for b, i in es]), R, "endFrame:pending-end-recorded", e.loc,
+              "whether the end is still pending is recorded before any return that follows ZSTD_endStream",
+              "ZSTD_seekable_endFrame can return `still to flush` without recording it: ZSTD_seekable_compressStream then feeds more input, zstd starts a second frame "
+              "and both go under one seek table entry (the seekable reader fails on the archive)")
+    nopend = guards.truthy_edges(c, lambda x: x.get("k") == "mem" and x.get("f") == "endingFrame", truth=False)
+    done = guards.truthy_edges(c, lambda x: x.get("k") == "ref" and c.single_def(x.get("n")) is not None and any(is_call(y, "ZSTD_seekable_endFrame") for y in walk(c.single_def(x["n"]))), truth=False)
+    res.check(bool(nopend) and bool(cs) and c.must_pass(via_edges=nopend + done, targets=cs), R, "compressStream:no-input-while-an-end-is-pending", c.loc,
+              "ZSTD_compressStream is reached only with no pending end (flag clear, or the end just completed)",
+              "ZSTD_seekable_compressStream hands input to zstd while the end of the current frame is still being flushed")
     # accounting: bytes a zstd streaming call wrote / consumed are counted on EVERY exit (also the
     # early "output full" returns), else the seek table's offsets drift
     for fname, callee, field, note in (("ZSTD_seekable_endFrame", "ZSTD_endStream", "frameCSize", "bytes written while ending the frame"),
@@ -239,7 +253,7 @@ def compressor(prog, res):
     shr = [x for _, _, x in rd.events(lambda y: y.get("k") == "bin" and y.get("op") == ">>" and const_val(y["rhs"]) == 7)]
     res.check(bool(sh) and bool(shr), "T7.layout", "descriptor:checksum-bit", w.loc, "checksum flag is bit 7 on both sides",
               "writer (<<7) and reader (>>7) disagree on the checksum flag bit")
-    res.need(R, 10)
+    res.need(R, 12)
 
 
 def witnesses(prog, res):
